@@ -274,7 +274,7 @@ class MultiTanProcessor(object):
 
     def _tile_parallel(self, pio, cli_progress, parallel, **kwargs):
         import multiprocessing as mp
-        from .par_util import check_workers, put_to_workers
+        from .par_util import check_workers, finish_queue, put_to_workers
 
         # Start up the workers
 
@@ -299,8 +299,7 @@ class MultiTanProcessor(object):
 
         # Finish up
 
-        queue.close()
-        queue.join_thread()
+        finish_queue(queue, workers, done_event)
         done_event.set()
 
         for w in workers:
